@@ -70,7 +70,7 @@ def ks_facts(v):
     offs = sym.sub(x, sym.idx(sym.sym(f.params[3]["n"]), i))
     e = bits.pow2_exp(offs) if offs != ZERO else None
     rounding = ok and e is not None and lowest is not None and e == sym.sub(lowest, I(1))
-    skip = len(c["guards"]) == 1 and c["guards"][0] in (sym.binop("!=", digit, ZERO), ("op", "!=", digit, ZERO))
+    skip = any(g_ in (sym.binop("!=", digit, ZERO), ("op", "!=", digit, ZERO)) for g_ in c["guards"])
     return {"rounding": bool(rounding), "skip_zero": bool(skip)}
 
 
